@@ -867,12 +867,10 @@ impl ModulePath {
         }
 
         // Relative path - resolve against base
-        let base_dir = base.and_then(|b| b.parent()).unwrap_or("");
-
-        let combined = if base_dir.is_empty() {
-            specifier.to_string()
-        } else {
-            format!("{}/{}", base_dir, specifier)
+        // (an importer directly under the root has the parent "", which still has to be joined)
+        let combined = match base.and_then(|b| b.parent()) {
+            Some(base_dir) => format!("{}/{}", base_dir, specifier),
+            None => specifier.to_string(),
         };
 
         ModulePath(Self::normalize_path(&combined))
